@@ -416,3 +416,74 @@ def rule_divisors(ctx, P, r):
             loc = stores[0][1].loc if stores else g.mod.src
             r.fail(inst, func=init, sig=f'word size stores {consts}', loc=loc,
                    msg=f'init stores {consts or "nothing"} into args.uargs.w; the front end divides by k*(w/8)')
+
+# ---------------------------------------------------------------- R12c
+def rule_op_tables(ctx, P, r):
+    cg = callgraph.get(P)
+    emax = None
+    for m in P.mods:
+        e = m.enumerators('EC_BACKENDS_MAX')
+        if 'EC_BACKENDS_MAX' in e:
+            emax = e['EC_BACKENDS_MAX']
+    if emax is None:
+        raise AnalysisBroken('anchor vanished: EC_BACKENDS_MAX')
+    # registry array
+    em = P.mod('src/erasurecode.c')
+    g = em.globals.get('@ec_backends_supported')
+    if g is None:
+        raise AnalysisBroken('anchor vanished: ec_backends_supported')
+    entries = re.findall(r'%struct\.ec_backend\* (null|bitcast \(%struct\.ec_backend_common\* (@[\w.]+) to %struct\.ec_backend\*\)|(@[\w.]+))', g)
+    names = [e[1] or e[2] or None for e in entries]
+    if len(names) == emax + 1 and names[-1] is None and all(names[:-1]):
+        r.ok(f'ec_backends_supported has {emax} entries and a NULL terminator', func='@ec_backends_supported', loc='src/erasurecode.c')
+    else:
+        r.fail('ec_backends_supported shape', func='@ec_backends_supported', sig=f'{len(names)} entries, EC_BACKENDS_MAX={emax}',
+               loc='src/erasurecode.c', msg=f'array entries {names} do not match EC_BACKENDS_MAX={emax} plus terminator')
+    for i, n in enumerate(names[:-1]):
+        c = cg.common.get(n)
+        if c is None:
+            r.fail(f'ec_backends_supported[{i}]', func='@ec_backends_supported', sig=f'entry {i} unknown {n}', loc='src/erasurecode.c', msg='entry is not a backend descriptor')
+            continue
+        if c['id'] == i:
+            r.ok(f'ec_backends_supported[{i}] = {n} has id {i}', func='@ec_backends_supported', loc=c['unit'])
+        else:
+            r.fail(f'ec_backends_supported[{i}]', func='@ec_backends_supported', sig=f'{n} has id {c["id"]} at position {i}', loc=c['unit'],
+                   msg=f'backend {n} (id {c["id"]}) is registered at position {i}: create(id) would instantiate another backend')
+    # tables
+    for tname, slots in cg.op_tables.items():
+        missing = [s for s, fn in slots.items() if fn in ('null', '0', None)]
+        owner = [n for n, c in cg.common.items() if c['ops'] == tname]
+        if missing:
+            r.fail(f'{tname} complete', func=tname, sig='null slot ' + ','.join(missing), loc=(cg.common[owner[0]]['unit'] if owner else ''),
+                   msg=f'op table {tname} has null slot(s) {missing}; the front end calls them unconditionally')
+        else:
+            r.ok(f'{tname}: all {len(slots)} slots non-null', func=tname, trivial=True)
+        if len(owner) != 1:
+            r.fail(f'{tname} owner', func=tname, sig=f'{len(owner)} owners', loc='', msg=f'op table is referenced by {owner}')
+            continue
+        own = owner[0]
+        fn = P.fns.get(slots['is_compatible_with'])
+        if fn is None:
+            continue
+        C = Canon(P, fn)
+        rets = [i for i in fn.insts() if i.op == 'ret']
+        exprs = {C.val(i.ops[0]) for i in rets}
+        inst = f'{slots["is_compatible_with"]} compares with {own}.ec_backend_version'
+        ok = False
+        for e in exprs:
+            if e in ('true', '1'):
+                ok = True
+            mm = re.match(r'^\((?:arg0 eq \*(@[\w.]+)\.ec_backend_version|\*(@[\w.]+)\.ec_backend_version eq arg0)\)$', e)
+            if mm and (mm.group(1) or mm.group(2)) == own:
+                ok = True
+            elif mm:
+                r.fail(inst, func=fn.name, sig=f'compares with {(mm.group(1) or mm.group(2))}', loc=rets[0].loc,
+                       msg=f'{fn.name} sits in the table of {own} but compares with the version of {(mm.group(1) or mm.group(2))}')
+                ok = None
+        if ok:
+            r.ok(inst, func=fn.name, loc=rets[0].loc, facts={'returns': sorted(exprs)})
+        elif ok is False:
+            if own in IN_SCOPE_BACKENDS:
+                r.undecided(inst, loc=rets[0].loc, msg=f'unrecognised compatibility predicate: {sorted(exprs)}')
+            else:
+                r.info(inst, loc=rets[0].loc, msg=f'out-of-scope backend with predicate {sorted(exprs)}')
